@@ -32,13 +32,20 @@ func VH_segwit_address_bijective() {
 		vReach("rejected")
 		return
 	}
-	a, err := DecodeAddress(s, net)
+	// the string may be presented entirely in upper case (Bech32 is case insensitive)
+	in := s
+	if vNondetBool("upperCase") {
+		in = strings.ToUpper(s)
+	}
+	a, err := DecodeAddress(in, net)
 	if err != nil {
 		vReach("rejected")
 		return
 	}
-	vAssert(a.EncodeAddress() == strings.ToLower(s), "decode then encode is the identity")
-	vAssert(a.IsForNet(net), "address belongs to the network of its prefix")
+	vAssert(a.EncodeAddress() == strings.ToLower(s), "decode then encode is the identity (in lower case)")
+	vAssert(a.IsForNet(net), "address belongs to the network of its prefix, whatever the case of the input")
+	other := nets[1-vNondetLen("net2", 1)]
+	vAssert(a.IsForNet(other) == (other == net), "and to no other network")
 	sa := a.ScriptAddress()
 	vAssert(len(sa) == n, "program length preserved")
 	for i := 0; i < n; i++ {
